@@ -344,6 +344,7 @@ class Interp:
             else:
                 b.cells[key] = Cell(c.k, c.ty, val)
         st.objs[oid] = b
+        st.events.append(('arg_rec', origin, oid, v))
         return Rec(v, oid)
 
     # -- running -----------------------------------------------------------
